@@ -92,11 +92,11 @@ Print Assumptions C05_same_delay_everywhere.
     above the remaining time are sanitised. *)
 Example C05_nonvacuous :
   let c := mk_cfg 5 10 None [] [(RATE_LIMIT, true)] (Some false) [false; false; false; false; false; false; false; false; true] None in
-  let e := mk_env [(ORaise {| cl_k := TRANSIENT; cl_ra := Some 7 |}, 1);
+  let e := mk_env [(ORaise {| cl_k := TRANSIENT; cl_ra := Some (HFin 7) |}, 1);
                    (ORaise {| cl_k := RATE_LIMIT; cl_ra := None |}, 1);
                    (OValue None, 0)] [] [SNaN; SFin 100] [] [] [] [] [] [] [] in
   strip (run_trace MCall c e 0 []) =
-    [EInvoke 1 0; EClassify 1; EStrat SidDefault false 1 TRANSIENT (Some 7) None (Some 9) (Some CExc); ESleep WDefault 0 1;
+    [EInvoke 1 0; EClassify 1; EStrat SidDefault false 1 TRANSIENT (Some (HFin 7)) None (Some 9) (Some CExc); ESleep WDefault 0 1;
      EInvoke 2 1; EClassify 2; EStrat (SidClass RATE_LIMIT) true 2 RATE_LIMIT None (Some 0) None None; ESleep WDefault 8 2;
      EInvoke 3 10].
 Proof. vm_compute. reflexivity. Qed.
